@@ -22,8 +22,11 @@ META = {
   "h_fail_header_tags": {"kind": "L/G", "functions": ["Multiline._merge/_check_single_definition/_check_datatype/add", "FieldArray._vpush", "Creators.__add_line_GFA1/__add_line_GFA2/__add_line_unknown_version"],
     "bounds": "a Gfa (version gfa1/gfa2/undecided, vlevel 0..3) whose header holds aa once or twice (FieldArray) with datatype i; then a header line with two tags, one new (bb) and one aa with datatype i/Z/f/J or a malformed value, in both orders: if it raises, nothing of it is merged",
     "timeout": {"quick": 200, "thorough": 400}},
+  "h_fail_edit": {"kind": "L/G", "functions": ["FieldData.set/_set_existing_field", "Field._validate_gfa_field", "Line.validate_field"],
+    "bounds": "GFA1 and GFA2 base states read at vlevel 3; one of 9 (line, field) targets (positional fields and tags of S, L, E, G, F, header) assigned one of 7 malformed or valid strings: if the assignment raises, the Gfa is unchanged and can still be written",
+    "timeout": {"quick": 200, "thorough": 400}},
   "h_fail_header_ts": {"kind": "L/G", "functions": ["Multiline._merge/_check_single_definition/add", "Creators.__add_line_GFA2"],
-    "bounds": "header line 'H ab:i:1 TS:i:<n>' merged into a header holding TS:i:5, n chosen from {0,4,5,6,55,500}; also as second line 'H TS:i:<n> cd:Z:x'",
+    "bounds": "header line 'H ab:i:1 TS:i:<n>' merged into a header holding TS:i:5 or TS:i:0, n chosen from {0,4,5,6,55,500}; also as second line 'H TS:i:<n> cd:Z:x'",
     "timeout": {"quick": 200, "thorough": 400}},
   "h_fail_unknown_version": {"kind": "G", "functions": ["Creators.__add_line_unknown_version", "Creators.process_line_queue", "Gfa._validate_version"],
     "bounds": "Gfa of undecided version holding 0..2 queued lines (L, P, custom) x 12 next lines (unsupported/conflicting VN, segment of either syntax, E, malformed lines)",
@@ -131,14 +134,15 @@ def h_fail_gfa1(pre: int, f1: int, f2: int) -> bool:
   vp.enter("f1")
   return _run(BASE1, PRE1, CAT1, pre, f1, f2, "f1")
 
-def h_fail_header_ts(n: int, second: bool) -> bool:
+def h_fail_header_ts(n: int, second: bool, zero: bool) -> bool:
   """
   pre: 0 <= n <= 5
   post: _ == True
   """
   vp.enter("ts")
   with NoTracing():
-    g = gfapy.Gfa(list(BASE2))
+    # (zero: the stored value is 0, a value that is false in a boolean context)
+    g = gfapy.Gfa([BASE2[0].replace("TS:i:5", "TS:i:0")] + BASE2[1:] if zero else list(BASE2))
     before = _obs(g)
   n = vp.pick([0, 4, 5, 6, 55, 500], n)
   text = ("H\tTS:i:" + str(n) + "\tcd:Z:x") if second else ("H\tab:i:1\tTS:i:" + str(n))
@@ -149,7 +153,7 @@ def h_fail_header_ts(n: int, second: bool) -> bool:
     with NoTracing():
       return not diff_obs(_obs(g), before)
   # accepted: only when the value agrees with the stored one
-  return n == 5
+  return n == (0 if zero else 5)
 
 QUEUED = [[], ["L\ta\t+\tb\t+\t*"], ["P\tp\ta+,b+\t*"], ["X\t1\t2"], ["L\ta\t+\tb\t+\t*", "X\t1\t2"], ["#\tc", "L\ta\t+\tb\t+\t*"]]
 NEXT = ["H\tVN:Z:3.0", "H\tVN:Z:2.0", "H\tVN:Z:1.0", "S\ta\t10\t*", "S\ta\t*", "E\te\ta+\tb+\t0\t1\t0\t1\t*", "S\ta", "L\ta\t+\tb",
@@ -200,6 +204,33 @@ def h_fail_header_tags(vi: int, vl: int, twice: bool, ai: int, first: bool) -> b
     g.add_line(text)
   except gfapy.Error:
     vp.reached("ht", version, level, text)
+    with NoTracing():
+      return not diff_obs(_obs(g), before)
+  return True
+
+
+EDIT1 = [("s1", "sequence"), ("s1", "LN"), ("s2", "xx"), (None, "TS")]
+EDIT2 = [("s1", "slen"), ("s1", "sequence"), ("e1", "beg1"), ("g1", "disp"), (None, "TS")]
+EVALS = ["x", "A C", "-1", "1.5", "", "7", "ACGT"]
+
+def h_fail_edit(two: bool, ti: int, vi: int) -> bool:
+  """
+  pre: 0 <= ti < 5 and 0 <= vi < 7
+  pre: two or ti < 4
+  post: _ == True
+  """
+  vp.enter("ed")
+  name, field = (EDIT2 if two else EDIT1)[vp.concretize(ti, 0, 4 if two else 3)]
+  v = EVALS[vp.concretize(vi, 0, 6)]
+  with NoTracing():
+    g = gfapy.Gfa(list(BASE2 if two else BASE1), vlevel=3)
+    if not two: g.line("s2").set("xx", 5)
+    before = _obs(g)
+  line = g.header if name is None else g.line(name)
+  try:
+    line.set(field, v)
+  except gfapy.Error as e:
+    vp.reached("ed", two, name, field, v, type(e).__name__)
     with NoTracing():
       return not diff_obs(_obs(g), before)
   return True
